@@ -1,2 +1,177 @@
-(* C07 — placeholder; theorems follow *)
-From Tetl Require Import Lib.Base C07.Types C07.Model C07.Spec.
+(* C07 — optional, variant and expected track the same state and value as the std types.
+   Property theorems only: each is closed by [exact] of a lemma proved in Dispatch.v,
+   VariantProofs.v, OptionalProofs.v, ExpectedProofs.v, SelectProofs.v, followed by
+   Print Assumptions.
+   Model = executable mirror of the etl code (Model.v); Spec = tagged values (Spec.v).
+   "wf" hypotheses say only that the active index of the initial objects is a valid index
+   (true of every constructed object) and that emplace<I> / in_place_index<I> name an existing
+   alternative (otherwise the C++ call does not compile).  A model result [Ok _] excludes the
+   outcomes Contract (a TETL_PRECONDITION in unchecked_get / operator* / error() fired),
+   UB and OutOfFuel. *)
+From Tetl Require Import Lib.Base C07.Types C07.Model C07.Spec C07.Dispatch C07.VariantProofs
+  C07.OptionalProofs C07.ExpectedProofs C07.SelectProofs.
+Local Open Scope nat_scope.
+
+(** * visit: the dispatcher reaches exactly the tuple of active indices — any arity, any sizes *)
+Theorem C07_visit_dispatch_exact : forall sizes active, Forall2 lt active sizes ->
+  dispatch sizes active = Some active.
+Proof. exact dispatch_exact. Qed.
+Print Assumptions C07_visit_dispatch_exact.
+
+(* the visitor receives (active index, contained value) of every variant and no
+   unchecked_get precondition fires *)
+Theorem C07_visit_receives_active : forall sizes vs, Forall2 (fun s n => idx s < n) vs sizes ->
+  visit_vals sizes vs = Ok (map (fun s => (idx s, val s)) vs).
+Proof. exact visit_vals_ok. Qed.
+Print Assumptions C07_visit_receives_active.
+
+(* visit(f, vs...) over variants with their own alternative lists: f sees the active
+   alternative's type and value, as [variant.visit] says *)
+Theorem C07_visit_spec : forall altss vs, Forall2 (fun s al => wfv al s) vs altss ->
+  visit_types altss vs = Ok (sv_visit altss (map absv vs)).
+Proof. exact visit_types_ok. Qed.
+Print Assumptions C07_visit_spec.
+
+(** * variant *)
+(* one operation: abs (step s o) = spec_step (abs s) o, for any list of alternatives *)
+Theorem C07_variant_step_refines_std : forall alts s o, wfs alts s -> wf_vop alts o ->
+  exists s', vstep alts s o = Ok s' /\ abss s' = sv_step alts (abss s) o /\ wfs alts s'.
+Proof. exact vstep_refines. Qed.
+Print Assumptions C07_variant_step_refines_std.
+
+(* every history of constructions, emplace, converting/copy/move assignments, swap, self and
+   aliasing assignments, from every pair of states *)
+Theorem C07_variant_refines_std : forall alts ops s, wfs alts s -> Forall (wf_vop alts) ops ->
+  exists s', vrun alts s ops = Ok s' /\ abss s' = sv_run alts (abss s) ops /\ wfs alts s'.
+Proof. exact vrun_refines. Qed.
+Print Assumptions C07_variant_refines_std.
+
+(* the six relations: [variant.relops], index first, then the values *)
+Theorem C07_variant_relops_spec : forall alts k a b, wfv alts a -> wfv alts b ->
+  var_rel alts k a b = Ok (sv_rel k (absv a) (absv b)).
+Proof. exact var_rel_ok. Qed.
+Print Assumptions C07_variant_relops_spec.
+
+Theorem C07_get_if_spec : forall s i, get_if s i = Ok (sv_get_if (absv s) i).
+Proof. exact get_if_ok. Qed.
+Print Assumptions C07_get_if_spec.
+
+Theorem C07_holds_alternative_spec : forall alts s t,
+  holds_alternative alts s t = sv_holds alts (absv s) t.
+Proof. exact holds_alternative_ok. Qed.
+Print Assumptions C07_holds_alternative_spec.
+
+(* generic etl::swap (three moves) exchanges the two variants and leaves no moved-from residue *)
+Theorem C07_swap_exchanges : forall alts a b, wfv alts a -> wfv alts b ->
+  swap_generic alts a b = Ok (b, a).
+Proof. exact swap_generic_ok. Qed.
+Print Assumptions C07_swap_exchanges.
+
+(* the converting constructor / assignment picks the alternative that overload resolution over
+   the non-narrowing candidates picks: the unique viable alternative that is strictly better
+   than every other viable one ([over.match.best]); otherwise the call is ill-formed *)
+Theorem C07_select_is_best_viable : forall alts src j,
+  select alts src = Some j <->
+  exists rk, viable alts src j rk /\ forall k rk', k <> j -> viable alts src k rk' -> rk < rk'.
+Proof. exact select_spec. Qed.
+Print Assumptions C07_select_is_best_viable.
+
+(** * optional *)
+Theorem C07_optional_step_refines_std : forall T U s o, wfos s ->
+  exists s', ostep T U s o = Ok s' /\ absos s' = so_step T U (absos s) o /\ wfos s'.
+Proof. exact ostep_refines. Qed.
+Print Assumptions C07_optional_step_refines_std.
+
+Theorem C07_optional_refines_std : forall T U ops s, wfos s ->
+  exists s', orun T U s ops = Ok s' /\ absos s' = so_run T U (absos s) ops /\ wfos s'.
+Proof. exact orun_refines. Qed.
+Print Assumptions C07_optional_refines_std.
+
+(* all six relations: optional/optional (also mixed optional<T>/optional<U>), optional/nullopt
+   in the forms the header provides, optional/value in both argument orders *)
+Theorem C07_optional_relops_spec : forall k l r, opt_rel k l r = Ok (so_rel k (abso l) (abso r)).
+Proof. exact opt_rel_ok. Qed.
+Print Assumptions C07_optional_relops_spec.
+
+Theorem C07_optional_nullopt_relops_spec : forall k s, opt_rel_null k s = so_rel_null k (abso s).
+Proof. exact opt_rel_null_ok. Qed.
+Print Assumptions C07_optional_nullopt_relops_spec.
+
+Theorem C07_optional_value_relops_spec : forall k rev s v,
+  opt_rel_val k rev s v = Ok (so_rel_val k rev (abso s) v).
+Proof. exact opt_rel_val_ok. Qed.
+Print Assumptions C07_optional_value_relops_spec.
+
+Theorem C07_optional_value_or_spec : forall s d, opt_value_or s d = Ok (so_value_or (abso s) d).
+Proof. exact opt_value_or_ok. Qed.
+Print Assumptions C07_optional_value_or_spec.
+
+Theorem C07_optional_and_then_spec : forall s f, opt_and_then s f = Ok (so_and_then (abso s) f).
+Proof. exact opt_and_then_ok. Qed.
+Print Assumptions C07_optional_and_then_spec.
+
+Theorem C07_optional_or_else_spec : forall T s g, wfo s ->
+  opt_or_else T s g = Ok (so_or_else (abso s) g).
+Proof. exact opt_or_else_ok. Qed.
+Print Assumptions C07_optional_or_else_spec.
+
+Theorem C07_optional_deref_spec : forall s v, abso s = Some v -> opt_deref s = Ok v.
+Proof. exact opt_deref_spec. Qed.
+Print Assumptions C07_optional_deref_spec.
+
+(** * expected *)
+Theorem C07_expected_refines_std : forall T E ops s, wfes s ->
+  exists s', erun T E s ops = Ok s' /\ abses s' = se_run T E (abses s) ops /\ wfes s'.
+Proof. exact erun_refines. Qed.
+Print Assumptions C07_expected_refines_std.
+
+Theorem C07_expected_observe_spec : forall s, wfe s ->
+  match abse s with
+  | inl v => exp_has_value s = true /\ exp_deref s = Ok v
+  | inr e => exp_has_value s = false /\ exp_error s = Ok e
+  end.
+Proof. exact exp_observe_ok. Qed.
+Print Assumptions C07_expected_observe_spec.
+
+Theorem C07_expected_value_or_spec : forall s d, exp_value_or s d = Ok (se_value_or (abse s) d).
+Proof. exact exp_value_or_ok. Qed.
+Print Assumptions C07_expected_value_or_spec.
+
+Theorem C07_expected_and_then_spec : forall s f, wfe s ->
+  exp_and_then s f = Ok (se_and_then (abse s) f).
+Proof. exact exp_and_then_ok. Qed.
+Print Assumptions C07_expected_and_then_spec.
+
+Theorem C07_expected_or_else_spec : forall s g, wfe s ->
+  exp_or_else s g = Ok (se_or_else (abse s) g).
+Proof. exact exp_or_else_ok. Qed.
+Print Assumptions C07_expected_or_else_spec.
+
+(** * optional<T&> *)
+Theorem C07_optional_ref_refines_pointer_cell : forall ops s,
+  exists s', rrun s ops = Ok s' /\ absr s' = sr_run (absr s) ops.
+Proof. exact rrun_refines. Qed.
+Print Assumptions C07_optional_ref_refines_pointer_cell.
+
+(** * unexpected *)
+Theorem C07_unexpected_refines_std : forall E ops s, urun E s ops = su_run E s ops.
+Proof. exact urun_refines. Qed.
+Print Assumptions C07_unexpected_refines_std.
+
+(** non-vacuity: the hypotheses are met by ordinary objects and the statements are not trivial
+    (a history that changes alternative, moves, swaps; a dispatch over three variants; the
+    selection rule on the fixed defect's witness variant<bool, Tracked>{int}) *)
+Example C07_nonvacuous :
+  wfs [TInt; TTr; TFloat] (var_default, var_default)
+  /\ Forall (wf_vop [TInt; TTr; TFloat]) [VEmplace false 1 2%Z; VMoveAssign true; VSwap; VConvAssign false TShort 3%Z]
+  /\ vrun [TInt; TTr; TFloat] (var_default, var_default)
+       [VEmplace false 1 2%Z; VMoveAssign true; VSwap; VConvAssign false TShort 3%Z]
+     = Ok ({| idx := 0; val := 3%Z |}, {| idx := 1; val := 99%Z |})
+  /\ Forall2 lt [2; 0; 3] [3; 1; 4] /\ dispatch [3; 1; 4] [2; 0; 3] = Some [2; 0; 3]
+  /\ select [TBool; TTr] TInt = Some 1 /\ select [TFloat; TLong] TInt = Some 1
+  /\ select [TInt; TFloat] TDouble = None
+  /\ wfos (opt_empty, opt_empty, opt_empty)
+  /\ opt_rel 2 opt_empty (replace 1 5%Z) = Ok true.
+Proof.
+  vm_compute. repeat split; try congruence; repeat constructor.
+Qed.
